@@ -373,17 +373,40 @@ def number_params(snaps):
 
 
 MOS_CHOICES = {
-    "sample": [{"tp": "NMOS"}, {"tp": "PMOS"}, {"tp": "NMOS", "w": "1/500000"}],
+    "sample": [{"tp": "NMOS"}, {"tp": "PMOS"}, {"tp": "NMOS", "w": "1/500000"}, {"tp": "NMOS", "nf": "2"}, {"tp": "NMOS", "mult": "2"}],
     "asap7": [{"tp": "NMOS", "vth": "STD"}, {"tp": "PMOS", "vth": "LOW"}, {"tp": "NMOS", "vth": "LOW", "w": "1/500000"}],
-    "sky130": [{"tp": "NMOS", "fam": "CORE", "vth": "STD"}, {"tp": "PMOS", "fam": "CORE", "vth": "HIGH"}, {"model": "NMOS_5p5V_D10_STD"}, {"tp": "PMOS", "fam": "IO", "vth": "STD", "w": "1/500000"},
+    "sky130": [{"tp": "NMOS", "fam": "CORE", "vth": "STD", "nf": "2"}, {"tp": "NMOS", "fam": "CORE", "vth": "STD", "nf": "3"}, {"tp": "NMOS", "fam": "CORE", "vth": "STD", "mult": "2"},
+               {"tp": "NMOS", "fam": "CORE", "vth": "STD"}, {"tp": "PMOS", "fam": "CORE", "vth": "HIGH"}, {"model": "NMOS_5p5V_D10_STD"}, {"tp": "PMOS", "fam": "IO", "vth": "STD", "w": "1/500000"},
                {"tp": "NMOS", "fam": "NONE", "vth": "NATIVE"}],
-    "gf180": [{"tp": "NMOS", "fam": "CORE"}, {"tp": "PMOS", "fam": "IO"}, {"model": "NFET_6p0V_NAT"}, {"tp": "PMOS", "fam": "CORE", "l": "1/1000000"}],
+    "gf180": [{"tp": "NMOS", "fam": "CORE"}, {"tp": "PMOS", "fam": "IO"}, {"model": "NFET_6p0V_NAT"}, {"tp": "PMOS", "fam": "CORE", "l": "1/1000000"},
+              # requests that differ in one field only (the per-parameter caches must tell them apart)
+              {"tp": "NMOS", "fam": "CORE", "nf": "2"}, {"tp": "NMOS", "fam": "CORE", "nf": "4"}, {"tp": "NMOS", "fam": "CORE", "mult": "3"}, {"model": "NFET_3p3V", "nf": "2"}],
 }
 BAD_MOS = {"sky130": {"tp": "NMOS", "fam": "CORE", "vth": "HIGH"}, "gf180": {"tp": "NMOS", "fam": "NONE"}, "asap7": {"tp": "NMOS", "vth": "HIGH"}, "sample": None}
 
 
+def hier_corpus():
+    """One flat top per PDK holding a Mos for every request of MOS_CHOICES — requests that differ in a single field sit side by
+    side, in either order: what one request compiles to must not depend on which others the process has seen."""
+    mos = next(l for l in gen_design.LEAVES if l["kind"] == "hdl21.primitives.Mos")
+    out = []
+    for pdk in PDKS:
+        for rev in (False, True):
+            choices = list(MOS_CHOICES[pdk])
+            if rev:
+                choices.reverse()
+            insts = []
+            for k, ch in enumerate(choices):
+                of = copy.deepcopy(mos)
+                of["py"] = {"k": "mos", "spec": dict({"prim": "Mos", "model": None, "tp": None, "vth": None, "fam": None, "w": None, "l": None, "nf": None, "mult": None}, **ch)}
+                insts.append({"n": f"m{k}", "of": of, "conns": [[p["n"], {"k": "sig", "n": "s"}] for p in mos["ports"]]})
+            d = {"bundles": [], "top": "Top", "modules": [{"name": "Top", "sigs": [{"n": "s", "w": 1, "port": True, "dir": "none"}], "bundles": [], "insts": insts}]}
+            out.append({"design": d, "pdk": pdk, "twice": rev, "via": None, "prewalk": "subclass" if rev else None, "style": "proc", "nmos": len(insts)})
+    return out
+
+
 def hier_cases(rng, n):
-    cases = []
+    cases = hier_corpus()
     for k in range(n):
         d = c16.gen_hier(rng, {})
         pdk = PDKS[k % 4]
@@ -397,7 +420,8 @@ def hier_cases(rng, n):
                     if bad and rng.random() < 0.5:
                         choice = dict(BAD_MOS[pdk])
                     i["of"]["py"] = {"k": "mos", "spec": dict({"prim": "Mos", "model": None, "tp": None, "vth": None, "fam": None, "w": None, "l": None, "nf": None, "mult": None}, **choice)}
-        cases.append({"design": d, "pdk": pdk, "twice": rng.random() < 0.5, "via": rng.choice([None, "hpdk_module", "hpdk_name"]), "style": ("proc", "class", "gen")[k % 3], "nmos": nmos})
+        cases.append({"design": d, "pdk": pdk, "twice": rng.random() < 0.5, "via": rng.choice([None, "hpdk_module", "hpdk_name"]),
+                      "prewalk": rng.choice([None, None, "base", "subclass", "walk_twice"]), "style": ("proc", "class", "gen")[k % 3], "nmos": nmos})
     return cases
 
 
@@ -417,6 +441,21 @@ def impl_hier(case):
         return {"build_error": common.errstr(ex)}
     finally:
         build.leaf_target = orig
+    # unrelated earlier work on the same objects: a read-only walker of the hierarchy (any number of times)
+    if case.get("prewalk"):
+        from hdl21.walker import HierarchyWalker
+
+        class Counter(HierarchyWalker):
+            def __init__(self):
+                self.n = 0
+
+            def visit_instance(self, inst):
+                self.n += 1
+                return super().visit_instance(inst)
+
+        for _ in range(2 if case["prewalk"] == "walk_twice" else 1):
+            w = Counter() if case["prewalk"] != "base" else HierarchyWalker()
+            w.visit_elaboratables(b.top)
     s0 = snapshot(b.top)
     pdk = pdk_module(case["pdk"])
     modname = pdk.__name__ + (".pdk" if case["pdk"] in ("sample", "asap7") else ".pdk_logic")
@@ -770,6 +809,33 @@ def run(ctx):
         mo, sem = (outs[ix], outs[ix + 1]) if ix is not None else ({}, None)
         for kind, detail, fkey in judge_hier(c, im, mo, sem if "pkg" in im else None):
             rep.fail(kind, {"stream": "hierarchy", "case": c}, {"detail": detail, "refused": im.get("refused")}, finding_key=fkey)
+    # ---- alone versus among others: what a request compiles to must not depend on the requests the process saw before
+    # (the PDKs keep per-parameter caches of device calls at module level)
+    alone = {}
+    for c in hc:
+        for m in c["design"]["modules"]:
+            for i in m["insts"]:
+                if i["of"].get("py", {}).get("k") == "mos":
+                    alone.setdefault((c["pdk"], json.dumps(i["of"]["py"]["spec"], sort_keys=True)), None)
+    akeys = list(alone)
+    for key, res in zip(akeys, common.pmap(impl_single, [{"pdk": p_, "spec": json.loads(sp)} for p_, sp in akeys], chunk=1)):
+        alone[key] = res
+    for c, im in zip(hc, hi):
+        if "after" not in im or "refused" in im:
+            continue
+        byname = {m["name"]: m for m in c["design"]["modules"]}
+        for ma in im["after"]:
+            for ia in ma["insts"]:
+                dj = next((i for i in byname.get(ma["name"], {"insts": []})["insts"] if i["n"] == ia["n"]), None)
+                if dj is None or dj["of"].get("py", {}).get("k") != "mos" or ia["t"]["k"] != "ext":
+                    continue
+                ref = alone[(c["pdk"], json.dumps(dj["of"]["py"]["spec"], sort_keys=True))]
+                rep.count("alone_vs_among", json.dumps([c["pdk"], dj["of"]["py"]["spec"], ma["name"], ia["n"], c["design"]["modules"][-1]["insts"][0]["n"]]))
+                if "of" in ref and (ref["of"]["name"], ref["of"]["params"]) != (ia["t"]["desc"]["name"], ia["t"]["desc"]["params"]):
+                    rep.fail("pred", {"stream": "alone_vs_among", "case": c, "instance": f"{ma['name']}.{ia['n']}"},
+                             {"why": "a request compiled among other requests gives another device call than the same request compiled alone",
+                              "request": dj["of"]["py"]["spec"], "alone": ref["of"], "among": ia["t"]["desc"]})
+                    break
     # ---- registry
     rc = registry_corpus() + registry_cases(rng, 24 if ctx.quick else 300)
     ri = common.pmap(run_registry, rc, chunk=1)
